@@ -157,11 +157,42 @@ fn program(idx: usize) -> Vec<Ins> {
     PROGRAMS.lock().unwrap().get(idx).cloned().unwrap_or_default()
 }
 
+/// A read performed through the view (recorded by the tracing run used as reference in C14).
+#[derive(Clone, Debug, PartialEq, Eq)]
+pub enum Acc {
+    Node(NodeId),
+    Adj(NodeId),
+    NodeAtt(NodeId),
+    EdgeAtt(EdgeId),
+    HasEdge(EdgeId),
+}
+
+thread_local! {
+    static RECORDER: std::cell::RefCell<Option<Vec<Acc>>> = const { std::cell::RefCell::new(None) };
+}
+fn record(a: Acc) {
+    RECORDER.with(|r| {
+        if let Some(v) = r.borrow_mut().as_mut() {
+            v.push(a);
+        }
+    });
+}
+
+/// Runs rule `idx` at `scope` on an UNGUARDED view and returns (reads in order, emitted ops, panicked).
+pub fn trace_run(idx: usize, view: GraphView<'_>, scope: &NodeId) -> (Vec<Acc>, Vec<WarpOp>, bool) {
+    RECORDER.with(|r| *r.borrow_mut() = Some(Vec::new()));
+    let mut delta = TickDelta::new();
+    let res = std::panic::catch_unwind(std::panic::AssertUnwindSafe(|| exec(idx, view, scope, &mut delta)));
+    let reads = RECORDER.with(|r| r.borrow_mut().take()).unwrap_or_default();
+    (reads, delta.into_ops_unsorted(), res.is_err())
+}
+
 fn guard_holds(view: GraphView<'_>, scope: &NodeId, g: &Option<(Tgt, Vec<u8>, bool)>) -> bool {
     match g {
         None => true,
         Some((t, bytes, positive)) => {
             let n = t.node(scope);
+            record(Acc::NodeAtt(n));
             let eq = matches!(view.node_attachment(&n), Some(AttachmentValue::Atom(a)) if a.bytes.as_ref() == bytes.as_slice());
             eq == *positive
         }
@@ -194,12 +225,15 @@ fn exec(idx: usize, view: GraphView<'_>, scope: &NodeId, delta: &mut TickDelta) 
                 value: v.as_ref().map(|b| atom(b)),
             }),
             Op::ReadNode(t) => {
+                record(Acc::Node(t.node(scope)));
                 let _ = view.node(&t.node(scope));
             }
             Op::ReadAdj(t) => {
+                record(Acc::Adj(t.node(scope)));
                 let _ = view.edges_from(&t.node(scope)).count();
             }
             Op::CountAdj(t) => {
+                record(Acc::Adj(*scope));
                 let c = view.edges_from(scope).count() as u8;
                 delta.push(WarpOp::SetAttachment {
                     key: AttachmentKey::node_alpha(NodeKey { warp_id: w, local_id: t.node(scope) }),
@@ -207,9 +241,11 @@ fn exec(idx: usize, view: GraphView<'_>, scope: &NodeId, delta: &mut TickDelta) 
                 });
             }
             Op::HasEdge(e) => {
+                record(Acc::HasEdge(eid(*e)));
                 let _ = view.has_edge(&eid(*e));
             }
             Op::ReadEAtt(e) => {
+                record(Acc::EdgeAtt(eid(*e)));
                 let _ = view.edge_attachment(&eid(*e));
             }
             Op::CrossWarp(ow, n) => delta.push(WarpOp::UpsertNode {
